@@ -606,19 +606,18 @@ def _arpa_base_conversion(ctx: Ctx):
             ds = [d for d in rd.defs_of(e)]
             return bool(ds) and all(d.kind == "assign" and d.value is not None and converted(d.value, depth + 1) for d in ds)
         return False
+    # the stores into the tables that are returned (`dict_ = prob_dicts[ngram - 1]; dict_[tokens] = ...`)
+    ret_names = {x.id for r in own_nodes(f.node) if isinstance(r, ast.Return) and r.value is not None for x in ast.walk(r.value)
+                 if isinstance(x, ast.Name)}
     stores = []
     for n in own_nodes(f.node):
         if isinstance(n, ast.Assign) and len(n.targets) == 1 and isinstance(n.targets[0], ast.Subscript) \
                 and isinstance(n.targets[0].value, ast.Name):
+            base = n.targets[0].value
+            if not (base.id in ret_names or rd.derives(base).names() & ret_names):
+                continue
             comps = list(n.value.elts) if isinstance(n.value, ast.Tuple) else [n.value]
-            if any(isinstance(x, ast.Call) for c in comps for x in ast.walk(c)) or len(comps) > 1:
-                # number stores: the count table stores plain ints parsed with int()
-                if all(isinstance(c, ast.Name) and not any(isinstance(d.value, ast.Call) and "ftype" in u(d.value) for d in rd.defs_of(c))
-                       for c in comps) and len(comps) == 1:
-                    continue
-                if any(isinstance(x, ast.Call) and call_name(x) == "int" for c in comps for x in ast.walk(c)):
-                    continue
-                stores.append((n, comps))
+            stores.append((n, comps))
     bad = [(n, c) for n, comps in stores for c in comps if not converted(c)]
     col.ob("G13", "S8", f"{rel}::parse_arpa_lm::every-stored-number-is-base-converted", bool(stores) and not bad,
            f"`{u(bad[0][0])[:90] if bad else ''}` stores `{u(bad[0][1]) if bad else ''}` without dividing by the to_base_e "
